@@ -614,8 +614,8 @@ func (t *tree) parsePlural(tok item) ast.Node {
 		t.unexpected(tok, "not in msg")
 	}
 
-	// plural and switch nodes have the same structure.
-	// BUG: the location quoted the erorr messages will not be correct.
+	// plural and switch nodes have the same structure; the cases are checked
+	// once the whole block has been read, so errors name the node's position.
 	var sw = t.parseSwitch(tok, itemPluralEnd).(*ast.SwitchNode)
 	var defaultNode ast.ParentNode
 	var cases []*ast.MsgPluralCaseNode
@@ -625,13 +625,13 @@ func (t *tree) parsePlural(tok item) ast.Node {
 		} else {
 			var intNode, ok = node.Values[0].(*ast.IntNode)
 			if !ok || len(node.Values) > 1 {
-				t.errorf("plural case must be a single integer, got %v", node.Values)
+				t.errorfAt(node.Pos, "plural case must be a single integer, got %v", node.Values)
 			}
 			cases = append(cases, &ast.MsgPluralCaseNode{node.Pos, int(intNode.Value), node.Body.(ast.ParentNode)})
 		}
 	}
 	if defaultNode == nil {
-		t.errorf("{default} case required")
+		t.errorfAt(sw.Pos, "{default} case required")
 	}
 	return &ast.MsgPluralNode{sw.Pos, "", sw.Value, cases, defaultNode}
 }
@@ -1277,6 +1277,13 @@ func (t *tree) unexpected(token item, context string) {
 		t.errorf("lexical error: %v", token)
 	}
 	t.errorf("unexpected %v in %s", token, context)
+}
+
+// errorfAt is errorf for an error that belongs to a node already parsed: the
+// error is reported at that node's position, not at the current token.
+func (t *tree) errorfAt(pos ast.Pos, format string, args ...interface{}) {
+	t.token[0], t.peekCount = item{pos: pos}, 0
+	t.errorf(format, args...)
 }
 
 // errorf formats the error and terminates processing.
